@@ -464,6 +464,11 @@ def c08_extra(ctx):
     for h in chain:
         h.key = "filter_chain"
     hs += chain
+    # one stream record per consumed instruction, in order, also when two lines carry the same address
+    recs = record_harnesses(tier())[:2]
+    for h in recs:
+        h.key = "stream_one_record_per_instruction"
+    hs += recs
     ch.run_harnesses(run, hs)
 
 
@@ -486,18 +491,16 @@ _c.regex = _NoEngine
 '''
 
 
-def c10_extra(ctx):
-    """(1) record format: addr::mnemonic,op,...,| with one empty operand field for an operand-less instruction (CrossHair on
-    the real Instruction.stringify / CompleteConsumer.consume_instruction / finalize);
-    (2) operand texts: the normal forms of C09 are concatenations of the operand's parts with '[', '+', '*', ']'."""
-    from checks import c09
+def record_harnesses(t):
+    """record format: addr::mnemonic,op,...,| per instruction, in order, one empty operand field for an operand-less
+    instruction, byte-continuation pseudo instructions dropped; the two addresses are symbolic and MAY BE EQUAL
+    (a relocatable object has several sections that all start at 0)"""
     from vlib import ch
 
-    run = ctx.run
-    T = 60 if tier() == "quick" else 240
+    T = 60 if t == "quick" else 240
     hs = []
     tuples = [(1, 1, 1, 1, 1, 1), (2, 2, 2, 2, 2, 2), (1, 2, 0, 1, 2, 1), (2, 1, 1, 0, 1, 2)]
-    if tier() == "thorough":
+    if t == "thorough":
         tuples += [(3, 3, 3, 3, 3, 3), (1, 4, 2, 0, 3, 1), (4, 1, 0, 0, 1, 4)]
     for tp in tuples:
         tag = "".join(map(str, tp))
@@ -519,6 +522,18 @@ def c10_extra(ctx):
     return obs.stringified_instructions == a1 + "::" + m1 + "," + o1 + "," + o2 + ",|" + a2 + "::" + m2 + ",,|"
 '''
         hs.append(ch.H(f"c10/record/{tag}", src, timeout=T, prelude=C10_PRE, key="record_format", note="two instructions (2 operands / none) + a byte-continuation pseudo instruction that must be dropped"))
+    return hs
+
+
+def c10_extra(ctx):
+    """(1) record format: addr::mnemonic,op,...,| with one empty operand field for an operand-less instruction (CrossHair on
+    the real Instruction.stringify / CompleteConsumer.consume_instruction / finalize);
+    (2) operand texts: the normal forms of C09 are concatenations of the operand's parts with '[', '+', '*', ']'."""
+    from checks import c09
+    from vlib import ch
+
+    run = ctx.run
+    hs = record_harnesses(tier())
     hs += [h for h in c09.harnesses(tier()) if any(x in h.name for x in ("/mem4/", "/mem3/", "/mem1/", "/mem0/", "/pair", "/mem4_nobase/", "/mem3_suffix/", "/mem0_suffix/"))]
     ch.run_harnesses(run, hs)
 
